@@ -447,6 +447,7 @@ func registerStream() {
 			sweepWorkload(map[string]int{"quick": 150, "thorough": 6000}),
 			hugeWorkload(map[string]int{"quick": 48, "thorough": 3000}),
 			procStreamWorkload("cli-streams", map[string]int{"quick": 4000, "thorough": 300000}),
+			cliIncrementalWorkload(map[string]int{"quick": 320, "thorough": 20000}),
 		},
 	})
 }
